@@ -73,6 +73,14 @@ def mk_type(rng, kind):
             nm = rng.choice(FRAGMENTS[rng.choice(list(FRAGMENTS))]) + "Sub" + base.__name__
             return type(nm, (base,), {}), MARKERS[base], f"subclass {nm} of {base.__name__}"
         return base, MARKERS[base], base.__name__
+    if kind == "multi-marker":
+        # a type deriving from two of the library's marker types (in either base order): "first match wins" in the documented order
+        # PermanentError, RateLimitError, ConcurrencyError, ServerError
+        order = [PermanentError, RateLimitError, ConcurrencyError, ServerError]
+        a, b = rng.sample(order, 2)
+        nm = rng.choice(["Stale", "Both", "Quota"]) + a.__name__[:4] + b.__name__[:4]
+        first = min((a, b), key=order.index)
+        return type(nm, (a, b), {}), MARKERS[first], f"{nm}({a.__name__}, {b.__name__})"
     if kind == "timeout-family":
         base = rng.choice([TimeoutError, socket.timeout, asyncio.TimeoutError])
         if rng.random() < 0.4:
@@ -172,7 +180,7 @@ def work(ctx, tier):
     vals = attr_values(rng)
     n = (25000 if tier == "quick" else 1000000) // ctx.nshards
     for i in range(n):
-        kind = rng.choice(["marker", "timeout-family", "builtin", "dynamic", "dynamic", "dynamic", "base"])
+        kind = rng.choice(["marker", "timeout-family", "builtin", "dynamic", "dynamic", "dynamic", "base", "multi-marker"])
         typ, marker, tdesc = mk_type(rng, kind)
         if marker is None and kind == "dynamic" and rng.random() < 0.08:
             # `args` shadowed by a class attribute: whatever built-in value it holds (None, a number, an object, a string, a dict), the
